@@ -15,6 +15,16 @@ import (
 func factsAll() {
 	factsApi()
 	factsCodec()
+	factsHD()
+}
+
+func factsHD() {
+	const d = "poc/wallet/keystore/hdkeychain"
+	intFact("hardenedKeyStart", d, "HardenedKeyStart")
+	intFact("serializedKeyLen", d, "serializedKeyLen")
+	intFact("minSeedBytes", d, "MinSeedBytes")
+	intFact("maxSeedBytes", d, "MaxSeedBytes")
+	strFact("hdMasterKey", d, "masterKey")
 }
 
 func factsCodec() {
